@@ -121,12 +121,12 @@ TOLERANCES = {
         "calls. Worst observed on the unchanged tree (quick, seeds 0-2, all eigen-based models, both modes): 2.6e-3 of this "
         "tolerance = 2.6e-9 of the scale (J2 seth hill), Richardson-vs-plain 2.7e-3 of it; the seeded np.isclose guard changes "
         "the J2 seth hill tangent by 3.5e-4 .. 2.1e-3 of the scale (350 .. 2100 tolerances) at every gap 1e-5 .. 1e-12 when the "
-        "stress is not isotropic in the pair plane, and by 1.3 gap elsewhere (J2 large: 1.3e-6 at gap 1e-5)",
+        "stress is not isotropic in the pair plane, and by about 0.1 gap elsewhere (J2 large: 1.3e-6 at gap 1e-5)",
     "accuracy of jax.jvp(jax.grad(W)) versus relative gap (unchanged tree, all six eigen-based models, coaxial and turned "
     "states, error / max(M, max|T|), single-call stencil)":
         "gap 1e-2 .. 1e-7: <= 1.7e-9 (oracle noise; against 6th-order differences of jax.grad: <= 5e-10); 1e-8: 5.4e-9; 1e-9: "
         "1.9e-7; 1e-10: 7.4e-7; 1e-11: 4.4e-6; 1e-12: 3.1e-5; 3e-13: 1.8e-4; 1e-13: 1.1e-3; 1e-14: 4.5e-3; 1e-15: 4.8e-2; "
-        "exactly repeated / rounding: 5e-5 .. 1.0. The finite-difference oracle itself (single-call stencil) stays at <= 1.7e-9 "
+        "exactly repeated / rounding-level: 5e-5 .. 0.5. The finite-difference oracle itself (single-call stencil) stays at <= 1.7e-9 "
         "with Richardson-vs-plain <= 1.7e-9 at every gap including 0",
     "finite-difference self-check": "|Richardson - plain| <= 0.1 tolerance, else excluded",
     "tangent symmetry (tracked)": "|T - T^T| <= 5.4e-8 of the tolerance at distinct principal values",
